@@ -17,7 +17,7 @@ const ID = "C03"
 func TestMain(m *testing.M) { rep.Main(m, ID) }
 
 func opts() sim.GenOpts {
-	o := sim.GenOpts{MaxSteps: 7, Retries: true, Preconds: true, Handlers: true}
+	o := sim.GenOpts{MaxSteps: 7, Retries: true, Preconds: true, Handlers: true, Redirects: true}
 	if rep.Thorough() {
 		o.MaxSteps = 12
 	}
